@@ -361,9 +361,22 @@ CLAIMED["C14"] = dict(
         "repaired (a failed compaction left the volume unwritable for good). " + TRUST,
    design="DESIGN.md §4 C14")
 
+CLAIMED["C10"] = dict(
+   text="Proof-level kernel of volume growth over an abstract node tree (free slots, child counts and ids of a node are uninterpreted functions of the node): "
+        "findEmptySlotsForOneVolume asks for x+1 data centers of the topology, y+1 racks of the main data center and z+1 servers of the main rack (guard at every "
+        "pick), reserves one server in every other rack and every other data center, and on success returns exactly 1+x+y+z servers (loop invariants), any failed "
+        "pick or reservation being an error; the three filters accept a node as the main data center / rack / server only if it is the requested one when one is "
+        "requested and has at least y+z+1 free slots and y+1 racks / z+1 free slots and z+1 servers / one free slot; findAndGrow grows exactly on the servers "
+        "found, with the id NextVolumeId returned, only if both succeeded; grow allocates the volume on every server in turn and registers a server (volume id and "
+        "replica placement of the request) only after its allocation succeeded, any refusal being an error.",
+   note="Assumed (trusted): the weighted random pick NodeImpl.PickNodesByWeight (on success numberOfNodes distinct children, the first accepted by the filter, the "
+        "others with a free slot) and ReserveOneVolume (a server below the node) - distinctness of the 1+x+y+z servers rests on these two; AllocateVolume (RPC), "
+        "AddOrUpdateVolume, RegisterVolumeLayout. Not decided: the counting parts of the filters (racks / servers with enough free slots among the children), "
+        "concurrent growth, the slots freed by a growth that fails half way. " + TRUST,
+   design="DESIGN.md §4 C10")
+
 NA = {
  "C03":"crash-point property over byte-level truncation of two persistent files; no per-function contract within reach decides it (DESIGN §4 C03)",
- "C10":"needs inductive tree predicates and cardinality reasoning over interface-typed nodes in pointer maps with randomised picking (DESIGN §4 C10)",
  "C15":"planners over string-keyed map snapshots; needs multiset/cardinality reasoning over maps that the generator cannot do unbounded",
  "C16":"same reason as C15: planners over map snapshots and shard bitmaps across many servers",
  "C27":"recursive listing driven by gRPC stream callbacks with mutable cursor state across recursion over an external tree",
